@@ -147,8 +147,12 @@ func getSetup() *setup {
 		for _, f := range s.Funcs { // request structs of functions without arguments appear in no signature
 			var id [4]byte
 			binary.LittleEndian.PutUint32(id[:], f.ID)
-			if _, _, val, err := liteclient.LiteapiRequestDecoder(id[:]); err == nil && val != nil {
+			_, name, val, err := liteclient.LiteapiRequestDecoder(id[:])
+			if err == nil && val != nil {
 				collect(reflect.TypeOf(val), goTypes)
+			} else if len(f.Fields) == 0 {
+				// a function without arguments: its request is exactly its 32-bit id
+				st.unmapped = append(st.unmapped, fmt.Sprintf("%s: LiteapiRequestDecoder does not recognise the complete request %x (name %v, value %v, error %v)", f.Name, id, name, val, err))
 			}
 		}
 		for _, v := range unreachable {
@@ -647,10 +651,26 @@ var lenCheck = &core.Check{Name: "c10/bytelen", Quick: 1500, Thorough: 40000, Fn
 
 // ---------------------------------------------------------------------------------------------
 
-func TestMapping(t *testing.T) {
+// c10/mapping: every declaration and function of lite_api.tl has a binding type of the right shape (and the
+// request decoder recognises every function id). One case; a failure is a violation like any other.
+var mappingCheck = &core.Check{Name: "c10/mapping", Fn: func(c *core.Ctx) error {
+	c.Intn("unused", 1)
 	su := getSetup()
 	if su.err != nil {
-		t.Fatal(su.err)
+		return su.err
+	}
+	c.NonTrivial("mapping")
+	if len(su.unmapped) > 0 {
+		return fmt.Errorf("declarations of lite_api.tl without a matching binding type:\n%s", strings.Join(su.unmapped, "\n"))
+	}
+	return nil
+}}
+
+func TestMapping(t *testing.T) {
+	core.RunEnum(t, mappingCheck, "", func(yield func(...uint64) bool) { yield(0) })
+	su := getSetup()
+	if su.err != nil {
+		return
 	}
 	s := su.schema
 	agree, explicit, dis := s.CRCAgreement()
@@ -659,9 +679,6 @@ func TestMapping(t *testing.T) {
 	core.Extra(valueCheck.Name, "targets", len(su.targets))
 	core.Extra(valueCheck.Name, "unmapped", su.unmapped)
 	t.Logf("%d targets; crc32 anchor %d/%d (differing: %v)", len(su.targets), agree, explicit, dis)
-	if len(su.unmapped) > 0 {
-		t.Fatalf("declarations of lite_api.tl without a matching binding type:\n%s", strings.Join(su.unmapped, "\n"))
-	}
 }
 
 func TestProp(t *testing.T) {
@@ -749,5 +766,5 @@ func TestEnum(t *testing.T) {
 }
 
 func TestReplay(t *testing.T) {
-	core.Replay(t, valueCheck, eachCheck, modesCheck, lenCheck, handCheck, methodCheck, genCheck, oversizeProbe, vecCheck, emptyCheck, nilPtrCheck, foreignCheck, concurrentCheck)
+	core.Replay(t, valueCheck, eachCheck, modesCheck, lenCheck, handCheck, methodCheck, genCheck, oversizeProbe, vecCheck, emptyCheck, nilPtrCheck, foreignCheck, concurrentCheck, mappingCheck)
 }
